@@ -178,3 +178,22 @@ PROPS["C16"] = {
     "quick": [R("TestPropPickleOut", 6000), R("TestPropMetricData", 6000)],
     "thorough": [R("TestPropPickleOut", 60000, shards=6, timeout=2400), R("TestPropMetricData", 100000, shards=10, timeout=2400)],
 }
+
+PROPS["C19"] = {
+    "pkg": "c19", "level": "exploration",
+    "rule": ("rapid draws 1-4 fresh series (unique prefix per case; some points sent with one leading dot), per series a timestamp sequence "
+             "(increasing / decreasing / with repeats / from {0,1,...,2^32-1}), and deals the points among 1-8 goroutines that dispatch "
+             "concurrently into a real table with validate_order on and a capture route. Each Dispatch is an operation with call/return time "
+             "and observed result (forwarded or not, identified by a unique value field). Oracle: per series the history must be linearizable "
+             "w.r.t. a max-register 'accept iff ts > current; current := ts' (porcupine), accepted timestamps pairwise distinct, a positive "
+             "timestamp newer than all other points of its series never rejected, out_of_order counter delta = number rejected, no invalid, "
+             "every rejected series visible in Table.Bad() with the not-newer reason, rejected points reach no route. Non-trivial: a series "
+             "touched by >=2 goroutines with an equal or decreasing timestamp. Distinct = hash(goroutines, observed history)."),
+    "level_text": "Generated concurrent histories checked for linearizability against a sequential max-register specification, plus a -race run; interleavings are sampled by the Go scheduler.",
+    "level_note": "The critical section is tiny, so schedules that expose a missing lock are rare without -race; the thorough tier and the quick -race run are the stronger signal for lock removal.",
+    "technique": "property-based testing (rapid) of concurrent histories + linearizability checking (porcupine) against a max-register model; race detector",
+    "assumptions": ["timestamps are integers within uint32", "wall-clock monotonic time orders call/return events"],
+    "quick": [R("TestPropOrdered", 2500), R("TestPropOrdered", 400, race=True, env={"GOMAXPROCS": 8})],
+    "thorough": [R("TestPropOrdered", 20000, shards=8, timeout=2400), R("TestPropOrdered", 20000, shards=4, timeout=2400, env={"GOMAXPROCS": 2}),
+                 R("TestPropOrdered", 4000, shards=4, race=True, timeout=2400)],
+}
